@@ -100,6 +100,7 @@ type CallAnn struct {
 	Asserts []Clause
 	Assumes []Clause
 	Unfolds []Clause // opaque predicate instances whose definition is made available at this point
+	Folds   []Clause // opaque predicate instances established at this point by proving their definition
 	Ghosts  []GhostUpd
 	Line    int
 	matched bool
@@ -645,7 +646,7 @@ func parseExprString(s string) (e Expr, err error) {
 // Contract file reader
 
 var topKeywords = map[string]bool{"opaque": true, "deterministic": true, "func": true, "ghost": true, "ufunc": true, "pure": true, "pred": true, "axiom": true, "lemma": true, "type": true, "extern": true}
-var clauseKeywords = map[string]bool{"unfold": true, "owns": true, "reveal": true, "cases": true, "dispatch": true, "requires": true, "ensures": true, "modifies": true, "serves": true, "loop": true, "invariant": true,
+var clauseKeywords = map[string]bool{"unfold": true, "fold": true, "owns": true, "reveal": true, "cases": true, "dispatch": true, "requires": true, "ensures": true, "modifies": true, "serves": true, "loop": true, "invariant": true,
 	"at": true, "after": true, "assert": true, "assume": true, "flag": true, "set": true, "uses": true}
 
 type rawLine struct {
@@ -893,7 +894,7 @@ func readSpecFile(path string, isSpec bool) (*SpecFile, error) {
 				return nil, perr(g, fmt.Errorf("clause %q outside a func contract", w))
 			}
 			switch w {
-			case "requires", "ensures", "invariant", "assert", "assume", "unfold":
+			case "requires", "ensures", "invariant", "assert", "assume", "unfold", "fold":
 				label, r := stripLabel(rest)
 				e, err := parseExprString(r)
 				if err != nil {
@@ -925,6 +926,11 @@ func readSpecFile(path string, isSpec bool) (*SpecFile, error) {
 						return nil, perr(g, fmt.Errorf("unfold outside 'at call'"))
 					}
 					curCall.Unfolds = append(curCall.Unfolds, cl)
+				case "fold":
+					if curCall == nil {
+						return nil, perr(g, fmt.Errorf("fold outside 'at call'"))
+					}
+					curCall.Folds = append(curCall.Folds, cl)
 				}
 			case "set":
 				// ghost update at a call site: set NAME := expr
